@@ -135,6 +135,10 @@ def run(ctx):
             wd, _ = gen.gen_vector(rng, enz, gen.ovh(rng, enz), gen.ovh(rng, enz))
         if rng.random() < 0.15:
             wd = T.mutate(rng, wd)
+        if rng.random() < 0.15:
+            # an ambiguous base call somewhere in the record (any IUPAC code): read alike on both strands
+            i_ = rng.randrange(len(wd))
+            wd = wd[:i_] + rng.choice("RYSWKMBDHVN") + wd[i_ + 1:]
         ctx.guard(check_typing, {"cls": "generic:{}:{}".format(kind, enz), "word": gen.rot(wd, rng.randrange(len(wd)))})
     # signature-typed parts over every kind of cutter a kit may declare — sites with ambiguity codes, overhangs on
     # either side — on plasmids built from the enzyme's geometry alone: accepted, and on the other strand accepted
@@ -234,6 +238,29 @@ def run(ctx):
                 "mods": [asm.ent_json(1, "generic:M:" + name, m1), asm.ent_json(2, "generic:M:" + name, m2)],
                 "pid": 1, "pname": 2, "clash": "vector-upstream"}
         ctx.guard(check_assembly, case)
+    # an undetermined base (N) in the junction on which the chain closes — the vector's upstream overhang, the one
+    # junction that is a module's start on one strand only
+    for enz in asm.pick_enzymes(rng, ctx.budget(30, 600)):
+        site, off, k = gen.geom(enz)
+        if k < 3:
+            continue
+        fb = (site, gen.rc(site))
+        ovs = gen.distinct_overhangs(rng, k, 3, fb)
+        if len(ovs) < 3:
+            continue
+        j_ = rng.randrange(k)
+        up = ovs[2][:j_] + "N" + ovs[2][j_ + 1:]
+        try:
+            vw, vd = gen.gen_vector(rng, enz, o5=ovs[0], o3=up, tries=200)
+            m1, _ = gen.gen_module(rng, enz, ovs[0], ovs[1], tries=200)
+            m2, _ = gen.gen_module(rng, enz, ovs[1], up, tries=200)
+        except RuntimeError:
+            continue
+        name = str(enz)
+        ctx.guard(check_assembly, {"enz": name, "vector": asm.ent_json(0, "generic:V:" + name, vw),
+                                   "mods": [asm.ent_json(1, "generic:M:" + name, m1), asm.ent_json(2, "generic:M:" + name, m2)],
+                                   "pid": 1, "pname": 2})
+        ctx.note("N-in-closing-junction")
     # two junctions that are letter-by-letter complements of each other (AATG / TTAC): not a hairpin, a legal pair of
     # fusion sites on both strands
     comp = {"A": "T", "C": "G", "G": "C", "T": "A"}
